@@ -306,6 +306,8 @@ pub fn docs(tier: Tier) -> Vec<Value> {
         json!(""),
         json!(false),
         json!(0),
+        json!({"a": " ", "b": ["\t", "\u{a0}", ""]}),
+        json!([{"a": [1, null]}, {"b": 1}, {"a": null}, {"a": [[2], null, {"a": 3}]}]),
     ];
     if tier == Tier::Thorough {
         v.extend(crate::enumr::pool_quick());
